@@ -72,6 +72,17 @@ def parseRect : YV α → Except Err (Rect α)
       else .ok { cx := a, cy := b, w := c, h := d, region := t }
   | _ => .error .assert
 
+/-- `[f(x) for x in l]` where `f` may raise. -/
+def mapE {β γ : Type} (f : β → Except Err γ) : List β → Except Err (List γ)
+  | [] => .ok []
+  | x :: t =>
+    match f x with
+    | .error e => .error e
+    | .ok y =>
+      match mapE f t with
+      | .error e => .error e
+      | .ok ys => .ok (y :: ys)
+
 def lookup (k : String) (kv : List (String × YV α)) : Option (YV α) :=
   (kv.find? fun p => p.1 == k).map (·.2)
 
@@ -91,7 +102,7 @@ def parseDie : YV α → Except Err (DieIn α)
                 let rlist : List (YV α) := match x with
                   | .num _ => [.list (x :: rest)]
                   | _ => x :: rest
-                match rlist.mapM parseRect with
+                match mapE parseRect rlist with
                 | .ok rs => .ok { W := w, H := h, regions := rs }
                 | .error e => .error e
             | some _ => .error .assert
@@ -194,6 +205,11 @@ def occupy (m : Mat) (g : IRect) : Mat := fun r c => m r c || g.contains r c
 
 /-! ### `_expand_rectangle` / `_find_all_ground_rectangles` -/
 
+/-- `if valid: …; if new_r not in g_regions: g_regions.add(new_r); pending.append(new_r)` on the pair
+    (`pending`, `g_regions`). -/
+def push (valid : Bool) (x : IRect) (ps : List IRect × List IRect) : List IRect × List IRect :=
+  if valid && !ps.2.contains x then (ps.1 ++ [x], ps.2 ++ [x]) else ps
+
 /-- the `while len(pending) > 0` loop: `pending` is the deque, `seen` the set `g_regions`
     (two `GroundRegion`s are `==` iff their indices are: `area`, `ratio` are functions of the indices).
     `none` = out of fuel (proved impossible for the fuel used, `bfs_fuel_enough`). -/
@@ -201,12 +217,8 @@ def bfs (m : Mat) (nr nc : Nat) : Nat → List IRect → List IRect → Option (
   | _, [], seen => some seen
   | 0, _ :: _, _ => none
   | f + 1, r :: rest, seen =>
-    let p1 : List IRect × List IRect :=
-      if decide (r.rmax + 1 < nr) && rowFree m (r.rmax + 1) r.cmin r.cmax && !seen.contains r.growRow
-      then (rest ++ [r.growRow], seen ++ [r.growRow]) else (rest, seen)
-    let p2 : List IRect × List IRect :=
-      if decide (r.cmax + 1 < nc) && colFree m (r.cmax + 1) r.rmin r.rmax && !p1.2.contains r.growCol
-      then (p1.1 ++ [r.growCol], p1.2 ++ [r.growCol]) else p1
+    let p1 := push (decide (r.rmax + 1 < nr) && rowFree m (r.rmax + 1) r.cmin r.cmax) r.growRow (rest, seen)
+    let p2 := push (decide (r.cmax + 1 < nc) && colFree m (r.cmax + 1) r.rmin r.rmax) r.growCol p1
     bfs m nr nc f p2.1 p2.2
 
 /-- `_expand_rectangle(GroundRegion(r, r, c, c, …))`. -/
@@ -350,7 +362,7 @@ def dieCore (ε : Eps α) (inp : DieIn α) (fixed : List (Rect α)) (picks : Lis
   let arr := toArr nr nc m0
   let m := ofArr arr m0
   if !coverAccept nr nc m picks then .error .trace else
-  match picks.mapM (mkGround g.1 g.2) with
+  match mapE (mkGround g.1 g.2) picks with
   | .error e => .error e
   | .ok ground =>
     let out : DieOut α := { W := inp.W, H := inp.H, specialized := specOf inp, ground := ground,
